@@ -418,6 +418,7 @@ type CrashRun struct {
 	HeapPages map[int32]bool
 	PreCrashDiv []Divergence
 	Infeasible string
+	EndPins map[int32]int32
 }
 
 func (cr *CrashRun) stat(k string, n int) {
@@ -441,8 +442,9 @@ func minFramesFor(cfg *CrashCfg) int {
 	for _, t := range cfg.Tables {
 		cols += len(t.Cols)
 	}
-	// measured: each skip-list index keeps its header page and start node pinned
-	return 2*cols + 10
+	// measured (pin vector after set-up): each skip-list index keeps three pages pinned for good
+	// (header page, start node, sentinel node); a statement needs a handful of frames on top
+	return 3*cols + 8
 }
 
 // execute runs set-up + history (generated when ops==nil, replayed otherwise) with the recorder on.
@@ -555,6 +557,7 @@ func (cr *CrashRun) execute(ops []Op, gen *rng) {
 			}
 		}()
 	}
+	cr.EndPins = s.PinVector()
 	s.Crash()
 	cr.Events = rec.Events
 	cr.Snaps = e.Snaps
